@@ -331,7 +331,8 @@ def r17_5(ctx):
     """Callback registry: identifiers handed out by add_callback are unique among the callbacks currently registered -
     over the sequence add a, add b, remove a, add c (with colliding and with distinct hashes) the registry ends up holding
     exactly b and c: a new registration never replaces a live one (the application's callback handler would silently stop
-    receiving frames), and remove_callback removes exactly the one registered under that identifier."""
+    receiving frames), and remove_callback removes exactly the one registered under that identifier. The same over a long
+    history: two permanent callbacks, then 600 register / unregister cycles of temporary ones (identifier counters wrap)."""
     repo = ctx.repo
     add = repo.func(f"{EZ}:EZSP.add_callback")
     rem = repo.func(f"{EZ}:EZSP.remove_callback")
@@ -359,6 +360,36 @@ def r17_5(ctx):
             ok = ib != ic and sorted(v.tag for v in reg.values()) == ["cb_b", "cb_c"] and reg.get(ib) == Sym("cb_b") and reg.get(ic) == Sym("cb_c")
             ctx.require(ok, f"registry:{label}", f"{label}: add a -> {ia!r}, add b -> {ib!r}, remove a, add c -> {ic!r}; registry now {reg!r} (must hold exactly b and c "
                         "under different identifiers)", func=add, trace=p.trace())
+
+
+    # a long history on one object: a permanent callback (the built-in status dispatcher, the application's handler) registered first,
+    # then several hundred register / unregister cycles of a temporary one (every scan does that): the permanent callbacks must still
+    # be registered under their identifiers afterwards, and a temporary identifier never equals a live one (a counter that wraps does)
+    n_cycles = 600
+    px = PX(repo, models=[("hash", lambda px_, t, a, k, fr: (sum(a[0].tag.encode()) * 31) % 257)], inline=same_class(stop=("stack_status_callback",)))
+    px.inline.root = add
+
+    def long_entry():
+        me = self_obj(cls, {"_callbacks": {}})
+        px.top_frame = None
+        perm = [(px.call_function(add, me, [Sym(f"perm{i}")], {}, None), f"perm{i}") for i in range(2)]
+        for i in range(n_cycles):
+            tid = px.call_function(add, me, [Sym(f"tmp{i % 7}")], {}, None)
+            reg = me.fields["_callbacks"]
+            if any(getattr(reg.get(pid), "tag", None) != tag for pid, tag in perm) or tid in [pid for pid, _ in perm] or len(reg) != 3:
+                return ("lost", i, tid, {k: getattr(v, "tag", v) for k, v in reg.items()})
+            px.call_function(rem, me, [tid], {}, None)
+            if len(me.fields["_callbacks"]) != 2:
+                return ("leak", i, tid, {k: getattr(v, "tag", v) for k, v in me.fields["_callbacks"].items()})
+        return ("ok", n_cycles, None, None)
+
+    for p in px._run(long_entry):
+        if p.terminal != "return":
+            ctx.violation("registry:long-history", f"register / unregister cycles: {p.value!r}", func=add, trace=p.trace(20))
+            continue
+        verdict, i, tid, reg = p.value
+        ctx.require(verdict == "ok", "registry:long-history", f"after {i} register / unregister cycles of a temporary callback the registration returns identifier {tid!r} "
+                    f"and the registry is {reg!r}: a permanent callback was replaced or an entry leaked", func=add)
 
 
 @rule("R17.6", ["C17", "C14"], "T-FUN", floor=4)
